@@ -218,6 +218,7 @@ impl Ctx {
 
     fn new_with(prop: &str, tier: Tier, seed: u64, shard: u64, nshards: u64, wd: Watchdog) -> Ctx {
         install_panic_hook();
+        crate::trace_sub::install();
         let build = if cfg!(miri) {
             "miri"
         } else if cfg!(stunmon_asan) {
